@@ -243,7 +243,7 @@ func c03Accumulate(c *ctx, pr *Protocol) {
 				for v := range w.SeenSet() {
 					if call, isC := v.(*ssa.Call); isC && strings.HasSuffix(core.CalleeName(call), ").UnmarshalShare") {
 						// inside a loop over all parties that skips only self
-						for _, l := range loopsOf(st) {
+						for _, l := range loopsOf(call.Parent()) {
 							if (l.In[call.Block()] || l.Body != nil && l.Body.Dominates(call.Block())) && coverage(l, call.Block()) == "all-but-self" {
 								peerShare = true
 							}
